@@ -86,6 +86,9 @@ class installed:
                 return ops.HANDLERS["randint"](self._randint, a, k)
             return self._randint(*a, **k)
         torch.randint = randint
+        # dtype / device conversions of modules create new parameter objects (so a converted symbolic parameter gets its new dtype)
+        self._ow = torch.__future__.get_overwrite_module_params_on_conversion()
+        torch.__future__.set_overwrite_module_params_on_conversion(True)
         for m in list(sys.modules.values()):
             if m is None or not getattr(m, "__name__", "").startswith("nflows"):
                 continue
@@ -98,5 +101,6 @@ class installed:
     def __exit__(self, *a):
         import torch
         torch.randint = self._randint
+        torch.__future__.set_overwrite_module_params_on_conversion(self._ow)
         for m, k, v in self.saved:
             setattr(m, k, v)
